@@ -63,6 +63,30 @@ def gen_schedule(rng, nconn):
     return sched
 
 
+def directed_schedules(rng):
+    """shapes the random generator reaches rarely: the SERVED connection is killed by a refused request while another one is
+    queued behind it and a third arrives later (an early or a double release of the registry entry shows only then); a
+    connection that opens inside the clean-up delay of its predecessor and is still open when a third arrives (a clean-up that
+    removes the entry by service id instead of by connection shows only then).  The clean-up event is moved around."""
+    O, R, C, CL = (lambda j: ("open", j)), (lambda j, k, a: ("req", j, k, a)), (lambda j: ("close", j)), ("cleanup",)
+    base = [
+        [O(0), O(1), R(0, "search", 1), R(1, "config", 1), CL, O(2), R(1, "upload", 1), R(2, "upload", 2), C(1), CL, C(2), CL],
+        [O(0), O(1), R(0, "upload", 1), R(1, "config", 1), CL, O(2), R(1, "upload", 1), R(2, "upload", 2), C(1), CL, C(2), CL],
+        [O(0), R(0, "config", 1), O(1), R(0, "config", 1), R(1, "upload", 1), CL, O(2), R(2, "upload", 2), R(1, "search", 1), C(1), CL, C(2), CL],
+        [O(0), R(0, "config", 1), C(0), O(1), CL, O(2), R(1, "upload", 1), R(2, "upload", 2), C(1), CL, C(2), CL],
+        [O(0), R(0, "config", 1), C(0), O(1), R(1, "upload", 1), CL, O(2), R(2, "upload", 2), R(2, "search", 1), C(2), CL, C(1), CL],
+        [O(0), R(0, "config", 1), R(0, "upload", 1), C(0), O(1), O(2), CL, R(1, "search", 1), R(2, "upload", 2), C(1), CL, C(2), CL],
+    ]
+    out = []
+    for b in base:
+        out.append(list(b))
+        i = b.index(CL)
+        for d in (1, 2):                      # the first clean-up one / two actions later
+            if i + d < len(b) and b[i + d] != CL:
+                v = list(b); v.pop(i); v.insert(i + d, CL); out.append(v)
+    return out
+
+
 def line(a):
     return "mgr " + " ".join(str(x) for x in a)
 
@@ -282,6 +306,7 @@ def correspond(ctx):
     scheds = []
     for _ in range(ctx.pick(120, 2500)):
         scheds.append(gen_schedule(rng, rng.choice([2, 2, 3])))
+    scheds += directed_schedules(rng)
     # the Lean manager model runs first (eager internal steps, cleanup delay released by the schedule); its
     # predicted manager state after every action tells the harness when the real server has caught up
     lines, marks, st_marks = [], [], []
@@ -332,7 +357,7 @@ def correspond(ctx):
         res.sample({"schedule": [" ".join(map(str, a)) for a in s], "replies": {str(j): [o for _, o in l] for j, l in logs.items()}, "probe": probe})
     res.rule = ("random interleavings of 2..3 connections on one service id, each with a script of up to 2 requests "
                 "(config, upload e1/e2, search) then close, connection 0 often running the whole workflow, with the server's "
-                "cleanup delay as a schedulable event; followed by a probe connection; non-trivial = distinct schedules")
+                "cleanup delay as a schedulable event, plus directed schedules (the served connection killed by a refused request with one connection queued and a third arriving later; a connection opened inside its predecessor's clean-up delay and still open when a third arrives; the clean-up event moved around); each followed by a probe connection; non-trivial = distinct schedules")
     return res
 
 
